@@ -4,13 +4,13 @@ from .. import sweeps
 from ..common import Check, hx, tags_tok
 from .. import jsongen, gen
 
-THEOREMS = ['from_json_is_from_parts', 'canonical_any_buffer', 'serialize_total_on_valid', 'unescape_escape_id', 'escape_injective', 'round_trip', 'round_trip_values']
+THEOREMS = ['from_json_is_from_parts', 'canonical_any_buffer', 'serialize_total_on_valid', 'unescape_escape_id', 'escape_injective', 'round_trip', 'round_trip_values', 'canonical_any_spelling']
 
 
 def run():
     c = Check('C02', THEOREMS, assumptions=[
         'events whose strings are valid UTF-8 (the property\'s scope); others are run for totality only',
-        'the proof that as_json output re-parses to the same bytes for every event (unescape after escape) is established by correspondence, not yet by a theorem'])
+        'upper-case hex, integers with exponent or fraction, duplicate members and unknown values nested deeper than 64 are outside the theorems'])
     c.rule = ('random events (all tag shapes incl. empty tags and empty strings; every code-point class incl. NUL, DEL, U+2028, astral) '
               'built with from_parts; as_json must parse in Python to the same seven values; parsing it back, and parsing 4 further '
               'renderings of the same tree (member order, whitespace, escape spelling, hex case, unknown members) into buffers with '
